@@ -220,9 +220,6 @@ func (p *Parser) Parse() (plumbing.Hash, error) {
 
 	err := p.scanner.Error()
 	if err != nil {
-		if errors.Is(err, io.EOF) && p.scanner.objects == 0 {
-			return plumbing.ZeroHash, ErrEmptyPackfile
-		}
 		return plumbing.ZeroHash, err
 	}
 
